@@ -89,7 +89,9 @@ func errWrapf(err error, msg string, v ...interface{}) error {
 func splitAllPaths(path string) []string {
 	dir, file := filepath.Dir(path), filepath.Base(path)
 	parts := []string{}
-	for dir != file {
+	// Stop at the root of the path only ("." or "/"), not at a folder that is
+	// named like its parent (a/a/file.txt, ../../file.txt)
+	for dir != file || (dir != "." && dir != "/") {
 		parts = append([]string{file}, parts...)
 		dir, file = filepath.Dir(dir), filepath.Base(dir)
 	}
